@@ -403,7 +403,12 @@ pub fn c05(case: &Case, obs: &mut Obs, prec: Prec) -> Result<(), Failure> {
     let tol = tol_for(case, prec);
     let ctx = PairCtx::new(&case.a, &case.b, tol);
     classify_inputs(case, &ctx, obs);
-    let run = |a: &MP, b: &MP, op: Operation| run_op(prec, Pairing::MM, a, b, op).map_err(|p| panic_failure(op_name(op), &p));
+    // the trait pairing is chosen per call among those the part counts allow (B-minus-A with the operands' roles swapped)
+    let run = |a: &MP, b: &MP, op: Operation| {
+        let pairing = Pairing::choose(a, b, case.bits);
+        run_op(prec, pairing, a, b, op).map_err(|p| panic_failure(op_name(op), &p))
+    };
+    obs.class(Pairing::choose(&case.a, &case.b, case.bits).name());
     let i = run(&case.a, &case.b, Operation::Intersection)?;
     let u = run(&case.a, &case.b, Operation::Union)?;
     let ab = run(&case.a, &case.b, Operation::Difference)?;
